@@ -64,3 +64,16 @@ Print Assumptions C01_sqrt_canonical.
 (* non-vacuity: a concrete non-trivial canonical value produced by a rounding with carry *)
 Example C01_witness : normalize 0 255 0 8 4 RN = Mpf 0 1 8 1 /\ canonical (Mpf 0 1 8 1).
 Proof. split; [reflexivity|]. apply canonicalb_spec. reflexivity. Qed.
+
+(* closure of the integer-part functions, modulo and integer powers (special values included) *)
+From MP Require Import Proofs.CanonMore.
+Theorem C01_floor_ceil_nint_canonical : forall s prec r v, canonical s -> 0 <= prec ->
+  (mpf_floor s prec r = Ok v \/ mpf_ceil s prec r = Ok v \/ mpf_nint s prec r = Ok v) -> canonical v.
+Proof. exact floor_ceil_nint_canonical. Qed.
+Theorem C01_frac_canonical : forall s prec r v, canonical s -> 0 <= prec -> mpf_frac s prec r = Ok v -> canonical v.
+Proof. exact frac_canonical. Qed.
+Theorem C01_mod_canonical : forall s t prec r y, canonical s -> canonical t -> 0 < prec -> mpf_mod s t prec r = Ok y -> canonical y.
+Proof. exact mod_canonical. Qed.
+Theorem C01_pow_int_canonical : forall s n prec r y, canonical s -> 0 < prec -> mpf_pow_int s n prec r = Ok y -> canonical y.
+Proof. exact pow_int_canonical. Qed.
+Print Assumptions C01_pow_int_canonical.
